@@ -486,9 +486,8 @@ impl Stdfs {
         let max_depth = if opts.recursive { usize::MAX } else { 0 };
         for entry in Stdfs::entries(&opts.path)?.max_depth(max_depth).follow(opts.follow) {
             let src = entry?;
-            let uid = opts.uid.map(nix::unistd::Uid::from_raw);
-            let gid = opts.gid.map(nix::unistd::Gid::from_raw);
-            nix::unistd::chown(src.path(), uid, gid)?;
+            // lchown so that a link that isn't being followed is changed rather than its target
+            std::os::unix::fs::lchown(src.path(), opts.uid, opts.gid)?;
         }
         Ok(())
     }
